@@ -23,12 +23,12 @@ import (
 func runRaceChild(f lib.Flags, res *lib.Result) {
 	wd, err := os.Getwd()
 	if err != nil {
-		res.Note("race build skipped: %v", err)
+		res.Fatalf("race build skipped: %v", err)
 		return
 	}
 	hdir := filepath.Join(wd, "harness")
 	if _, err := os.Stat(filepath.Join(hdir, "go.mod")); err != nil {
-		res.Note("race build skipped: harness directory not found from %s", wd)
+		res.Fatalf("race build skipped: harness directory not found from %s", wd)
 		return
 	}
 	tag := ""
@@ -45,7 +45,7 @@ func runRaceChild(f lib.Flags, res *lib.Result) {
 	b := exec.CommandContext(ctx, "go", args...)
 	b.Dir = hdir
 	if out, err := b.CombinedOutput(); err != nil {
-		res.Note("race build failed (not a finding): %v: %s", err, tail(string(out), 400))
+		res.Fatalf("race build failed: %v: %s", err, tail(string(out), 400))
 		return
 	}
 	outPath := filepath.Join(wd, ".build", fmt.Sprintf("result-c06-race-%d.json", os.Getpid()))
@@ -70,7 +70,7 @@ func runRaceChild(f lib.Flags, res *lib.Result) {
 	res.Hit("race-build:runs")
 	raw, err := os.ReadFile(outPath)
 	if err != nil {
-		res.Note("race child produced no result (%v): %s", runErr, tail(text, 400))
+		res.Fatalf("race child produced no result (%v): %s", runErr, tail(text, 400))
 		return
 	}
 	var child struct {
@@ -81,9 +81,10 @@ func runRaceChild(f lib.Flags, res *lib.Result) {
 			Mismatches []lib.Mismatch `json:"mismatches"`
 		} `json:"correspondence"`
 		Violations []lib.Violation `json:"violations"`
+		Fatal      []string        `json:"fatal"`
 	}
 	if err := json.Unmarshal(raw, &child); err != nil {
-		res.Note("race child result unreadable: %v", err)
+		res.Fatalf("race child result unreadable: %v", err)
 		return
 	}
 	res.HitN("race-build:cases", child.Cases)
@@ -93,6 +94,12 @@ func runRaceChild(f lib.Flags, res *lib.Result) {
 	}
 	for _, v := range child.Violations {
 		res.Violate(v)
+	}
+	for _, ft := range child.Fatal {
+		res.Fatalf("race child: %s", ft)
+	}
+	if child.Cases == 0 || child.Correspondence.Compared == 0 {
+		res.Fatalf("race child evaluated %d cases, %d comparisons", child.Cases, child.Correspondence.Compared)
 	}
 }
 
